@@ -1263,3 +1263,26 @@ pub fn get_some_after_truncate_panics(mut v: Vec<u8>, i: usize) -> u8 {
     }
     0
 }
+
+// windows(n): every item has n elements, the k-th window starts at k <= len - n
+pub fn windows_elem_index_safe(s: &[u32]) -> u32 {
+    let mut acc = 0u32;
+    for (k, w) in s.windows(3).enumerate() {
+        acc ^= w[0] ^ w[2] ^ s[k + 2];
+    }
+    acc
+}
+pub fn windows_elem_index_panics(s: &[u32]) -> u32 {
+    let mut acc = 0u32;
+    for (k, w) in s.windows(3).enumerate() {
+        acc ^= w[3];
+    }
+    acc
+}
+pub fn windows_start_index_panics(s: &[u32]) -> u32 {
+    let mut acc = 0u32;
+    for (k, _w) in s.windows(3).enumerate() {
+        acc ^= s[k + 3];
+    }
+    acc
+}
